@@ -172,7 +172,7 @@ func vfE8NameAt(f *FileLogger, t time.Time) string {
 }
 
 // vfE8ProbeCloseClears runs the real Close() once on a throw-away logger whose finished file moves from a work
-// dir to an output dir: does it clear f.out on that path (fix F26) or return with the closed descriptor still
+// dir to an output dir: does it clear f.out on that path (fix F44) or return with the closed descriptor still
 // in place (tree before the fix)? The answer is the model parameter Cfg.closeClears.
 func vfE8ProbeCloseClears() bool {
 	dir, err := os.MkdirTemp("", "vfe8probe")
